@@ -47,6 +47,9 @@ def stepped_docs(rng, n):
         if rng.random() < (0.6 if i % runlen == 0 else 0.15):
             body = body + [[1, 2]]
         docs["k%02d" % i] = {"t": {"body": body, "title": [[1]] if rng.random() < 0.5 else []}, "n": {}, "b4": 4}
+        # a keyword (not scorable) field whose postings weigh more than 1 in the later, better runs
+        if i % 3 != 1:
+            docs["k%02d" % i]["t"]["tags"] = [[1]] * (1 + (i // runlen) * 2 % 7)
     return docs
 
 
@@ -87,7 +90,14 @@ def stepped_query(rng):
     a, b = (t(1), t(2)) if rng.random() < 0.5 else (t(2), t(1))
     c = {"op": "term", "f": rng.choice(["body", "title"]), "t": rng.choice([[1], [1, 2]]), "b4": 4}
     form = rng.choice(["and", "and", "and3", "andmaybe", "andmaybe", "andmaybe-or", "or", "andor", "dismax",
-                       "andnot-and", "andnot-and", "andnot", "andnot-or", "andnot-or", "dismax-tb", "or-coord", "or-coord"])
+                       "andnot-and", "andnot-and", "andnot", "andnot-or", "andnot-or", "dismax-tb", "or-coord", "or-coord",
+                       "kw", "kw"])
+    if form == "kw":
+        # a term of the keyword field (scored by its posting weight under every model) beside a scored clause
+        kw = {"op": "term", "f": "tags", "t": [1], "b4": rng.choice([4, 4, 2])}
+        return rng.choice([{"op": "or", "kids": [a, kw], "b4": 4}, {"op": "dismax", "kids": [kw, b], "b4": 4},
+                           {"op": "andmaybe", "a": a, "b": kw}, {"op": "andmaybe", "a": kw, "b": b},
+                           {"op": "or", "kids": [kw, c, b], "b4": 4}])
     if form == "and":
         return {"op": "and", "kids": [a, b], "b4": 4}
     if form == "and3":
